@@ -186,7 +186,7 @@ class Unmodelled(Exception): pass
 
 class Exec:
     def __init__(self, db, monitor):
-        self.db = db; self.mon = monitor; self.steps = 0; self.maxsteps = 400000; self.max_loop_states = 3000; self.t0 = None; self.maxwall = 60.0
+        self.db = db; self.mon = monitor; self.steps = 0; self.maxsteps = 400000; self.max_loop_states = 3000; self.t0 = None; self.maxwall = 60.0; self.widen = True
         self.depth = 0
         self.frames = []
 
@@ -330,7 +330,9 @@ class Exec:
             for v, s in self.nv(e['e'], st, fr, T):
                 if e.get('t') == 'bool' and not isinstance(v, bool):
                     yield from self.truth(v, s)
-                else: yield v, s
+                else:
+                    self.mon.on_cast(self, s, e, v)
+                    yield v, s
             return
         if k == 'un': yield from self.ev_un(e, st, fr, T); return
         if k == 'bin': yield from self.ev_bin(e, st, fr, T); return
@@ -384,7 +386,8 @@ class Exec:
             for loc, s in self.nl(e['e'], st, fr, T):
                 old = self.load(s, loc)
                 d = 1 if op == '++' else -1
-                new = self.arith('+', old, d, s)
+                new = self.mon.arith(self, '+', old, d, s, e)
+                if new is NotImplemented: new = self.arith('+', old, d, s)
                 self.mon.on_write(self, s, fr, loc, new)
                 self.store(s, loc, new)
                 yield (old if e.get('post') else new), s
@@ -510,6 +513,9 @@ class Exec:
                 if op == '>': return (c + 1 if lo is None else max(lo, c + 1)), hi
                 if op == '>=': return (c if lo is None else max(lo, c)), hi
                 if op == '==': return (c if lo is None else max(lo, c)), (c if hi is None else min(hi, c))
+                if op == '!=':
+                    if lo is not None and lo == c: lo = c + 1
+                    if hi is not None and hi == c: hi = c - 1
                 return lo, hi
             neg = {'<': '>=', '>': '<=', '<=': '>', '>=': '<', '==': '!=', '!=': '=='}
             t = refine(lo, hi, op, b); f = refine(lo, hi, neg[op], b)
@@ -566,7 +572,8 @@ class Exec:
                     if isinstance(old, Cur) and base == '+':
                         new = self.mon.advance_value(self, s2, old, r)
                     else:
-                        new = self.arith(base, old, r, s2)
+                        new = self.mon.arith(self, base, old, r, s2, e)
+                        if new is NotImplemented: new = self.arith(base, old, r, s2)
                     self.mon.on_write(self, s2, fr, loc, new)
                     self.store(s2, loc, new)
                     yield new, s2
@@ -577,7 +584,8 @@ class Exec:
                     self.mon.on_compare(self, s2, e, op, l, r)
                     yield from self.compare(op, l, r, s2)
                 else:
-                    yield self.arith(op, l, r, s2), s2
+                    v = self.mon.arith(self, op, l, r, s2, e)
+                    yield (self.arith(op, l, r, s2) if v is NotImplemented else v), s2
 
     # ---------- calls ----------
     def eval_args(self, args, st, fr, byref, T):
@@ -988,7 +996,7 @@ class Exec:
                 s0, check, anc = work.pop()
                 self.gc(s0)
                 env0 = s0.env.setdefault(fr.fid, {})
-                if not bounded:
+                if not bounded and self.widen:
                     for k2, v2 in list(env0.items()):
                         if isinstance(v2, int) and not isinstance(v2, bool) and v2 >= WIDEN:
                             # widen the counter to a symbol, keeping the difference relations that hold right now with the
